@@ -20,11 +20,13 @@ Record st := {
   tmo : Z;                     (* its timeout T *)
   stack : list frame;          (* sink stack, top first *)
   tmr : timer;
+  waited : bool;               (* issued while the client was still opening: DispatchMethodCall bounds the wait with *)
+  otmr : timer;                (* its own timer (outer) and hands the caller a result guarded by ready() *)
   done : list (Z * mkind);     (* completions delivered to the caller's result, newest first *)
 }.
 
 Definition init (t : Z) : st :=
-  {| now := t; ph := NotIssued; t0 := 0; tmo := 0; stack := []; tmr := TNone; done := [] |}.
+  {| now := t; ph := NotIssued; t0 := 0; tmo := 0; stack := []; tmr := TNone; waited := false; otmr := TNone; done := [] |}.
 
 Definition ceil_r (r d : Z) : Z := ((d + r - 1) / r) * r.
 
@@ -35,6 +37,7 @@ Inductive label :=
 | OpenDone                        (* the open result completes: the chained _DispatchMethod runs *)
 | Tick (t : Z)                    (* the clock moves to t *)
 | Fire                            (* the timer queue runs the scheduled _TimeoutHelper *)
+| OFire                           (* the timer queue runs DispatchMethodCall's on_timeout (call issued before open) *)
 | Push                            (* some lower sink pushes a frame *)
 | Unpush                          (* a lower sink takes its own frame off again (SinkStack.Pop without a message,
                                      e.g. the pool swapping its queuing sink for a real one) *)
@@ -45,13 +48,13 @@ Definition enter (r : Z) (s : st) : st :=
   let d := deadline s in
   if d <? now s then
     (* already expired: _TimeoutHelper(None, sink_stack) posts TimeoutError; no timer, no frame pushed *)
-    {| now := now s; ph := Live; t0 := t0 s; tmo := tmo s; stack := [FResp]; tmr := TNone; done := done s |}
+    {| now := now s; ph := Live; t0 := t0 s; tmo := tmo s; stack := [FResp]; tmr := TNone; waited := waited s; otmr := otmr s; done := done s |}
   else
     {| now := now s; ph := Live; t0 := t0 s; tmo := tmo s; stack := [FTimeout; FResp];
-       tmr := TArmed (ceil_r r d); done := done s |}.
+       tmr := TArmed (ceil_r r d); waited := waited s; otmr := otmr s; done := done s |}.
 
 Definition set_stack (s : st) (k : list frame) : st :=
-  {| now := now s; ph := ph s; t0 := t0 s; tmo := tmo s; stack := k; tmr := tmr s; done := done s |}.
+  {| now := now s; ph := ph s; t0 := t0 s; tmo := tmo s; stack := k; tmr := tmr s; waited := waited s; otmr := otmr s; done := done s |}.
 
 (* a TimeoutError may only be posted once the deadline has been reached (timer, expired-on-entry path,
    or the serial transport's own timeout: all three compare against the same deadline) *)
@@ -64,19 +67,34 @@ Definition step (r : Z) (s : st) (l : label) : option st :=
       match ph s with
       | NotIssued =>
           if T <=? 0 then None else
-          let s1 := {| now := now s; ph := WaitOpen; t0 := now s; tmo := T; stack := []; tmr := TNone; done := [] |} in
-          Some (if opened then enter r s1 else s1)
+          if opened then
+            Some (enter r {| now := now s; ph := WaitOpen; t0 := now s; tmo := T; stack := []; tmr := TNone;
+                             waited := false; otmr := TNone; done := [] |})
+          else
+            (* chained behind the open result; the wait is bounded by a timer at the call's deadline *)
+            Some {| now := now s; ph := WaitOpen; t0 := now s; tmo := T; stack := []; tmr := TNone;
+                    waited := true; otmr := TArmed (ceil_r r (now s + T)); done := [] |}
       | _ => None
       end
   | OpenDone => match ph s with WaitOpen => Some (enter r s) | _ => None end
   | Tick t =>
       if t <? now s then None else
-      Some {| now := t; ph := ph s; t0 := t0 s; tmo := tmo s; stack := stack s; tmr := tmr s; done := done s |}
+      Some {| now := t; ph := ph s; t0 := t0 s; tmo := tmo s; stack := stack s; tmr := tmr s; waited := waited s; otmr := otmr s; done := done s |}
   | Fire =>
       match tmr s with
       | TArmed dl =>
           if now s <? dl then None else
-          Some {| now := now s; ph := ph s; t0 := t0 s; tmo := tmo s; stack := stack s; tmr := TFired; done := done s |}
+          Some {| now := now s; ph := ph s; t0 := t0 s; tmo := tmo s; stack := stack s; tmr := TFired;
+                  waited := waited s; otmr := otmr s; done := done s |}
+      | _ => None
+      end
+  | OFire =>
+      match otmr s with
+      | TArmed dl =>
+          if now s <? dl then None else
+          Some {| now := now s; ph := ph s; t0 := t0 s; tmo := tmo s; stack := stack s; tmr := tmr s;
+                  waited := waited s; otmr := TFired;
+                  done := match done s with [] => [(now s, MTimeout)] | d => d end |}
       | _ => None
       end
   | Push => match ph s with Live => Some (set_stack s (FLower :: stack s)) | _ => None end
@@ -90,10 +108,18 @@ Definition step (r : Z) (s : st) (l : label) : option st :=
           | FLower :: k => Some (set_stack s k)
           | FTimeout :: k =>                               (* context(): cancel the timer *)
               Some {| now := now s; ph := ph s; t0 := t0 s; tmo := tmo s; stack := k;
-                      tmr := match tmr s with TArmed _ => TCancelled | x => x end; done := done s |}
+                      tmr := match tmr s with TArmed _ => TCancelled | x => x end;
+                      waited := waited s; otmr := otmr s; done := done s |}
           | FResp :: k =>                                  (* _AsyncResponseSink: the single ar.set / set_exception *)
-              Some {| now := now s; ph := ph s; t0 := t0 s; tmo := tmo s; stack := k; tmr := tmr s;
-                      done := (now s, m) :: done s |}
+              if waited s then
+                (* the inner result completes; on_done cancels the outer timer and completes the caller's
+                   result unless the outer timer already did *)
+                Some {| now := now s; ph := ph s; t0 := t0 s; tmo := tmo s; stack := k; tmr := tmr s; waited := true;
+                        otmr := match otmr s with TArmed _ => TCancelled | x => x end;
+                        done := match done s with [] => [(now s, m)] | d => d end |}
+              else
+                Some {| now := now s; ph := ph s; t0 := t0 s; tmo := tmo s; stack := k; tmr := tmr s;
+                        waited := false; otmr := otmr s; done := (now s, m) :: done s |}
           end
       | _ => None
       end
@@ -113,6 +139,8 @@ Definition drain_all (s : st) (m : mkind) : list label := drain m (length (stack
 (* the timer is "due": Fire is enabled *)
 Definition fire_enabled (s : st) : bool :=
   match tmr s with TArmed dl => dl <=? now s | _ => false end.
+Definition ofire_enabled (s : st) : bool :=
+  match otmr s with TArmed dl => dl <=? now s | _ => false end.
 
 (* ---- correspondence: replay of the labels the implementation took for one call ---------------- *)
 Definition mkind_eqb (a b : mkind) : bool :=
@@ -150,8 +178,8 @@ Definition check_case (c : case) : bool :=
   | None => false
   end.
 
-Definition explain_case (c : case) : option (list (Z * mkind) * list frame * timer) :=
+Definition explain_case (c : case) : option (list (Z * mkind) * list frame * timer * timer) :=
   match replay (c_r c) (init (c_start c)) (c_steps c) with
-  | Some s => Some (done s, stack s, tmr s)
+  | Some s => Some (done s, stack s, tmr s, otmr s)
   | None => None
   end.
